@@ -1,0 +1,56 @@
+//! Probes for external runtime monitors. Only compiled with the `verif-hooks` feature, which is
+//! off by default; nothing in the crate depends on it.
+
+use std::cell::RefCell;
+
+/// Observation points inside the receive loops.
+#[derive(Clone, Copy, Debug, PartialEq, Eq)]
+pub enum Probe {
+    /// The parser ran over the initialized part of the receive buffer. `before`/`after` are the
+    /// number of buffered, not yet consumed bytes before and after the parse step.
+    Parsed {
+        /// `true` for the asynchronous connection.
+        is_async: bool,
+        /// Buffered bytes before parsing.
+        before: usize,
+        /// Buffered bytes after parsing.
+        after: usize,
+    },
+    /// A read is about to be issued.
+    BeforeRead {
+        /// `true` for the asynchronous connection.
+        is_async: bool,
+        /// Buffered, unconsumed bytes.
+        buffered: usize,
+        /// Length of the buffer handed to the reader (blocking) or its capacity (async).
+        buf_len: usize,
+    },
+    /// A read returned.
+    AfterRead {
+        /// `true` for the asynchronous connection.
+        is_async: bool,
+        /// Bytes returned by the read.
+        read: usize,
+        /// Buffered, unconsumed bytes after the read.
+        buffered: usize,
+    },
+}
+
+thread_local! {
+    static SINK: RefCell<Option<Box<dyn FnMut(Probe)>>> = const { RefCell::new(None) };
+}
+
+/// Install (or remove) the sink receiving the probes emitted on this thread.
+pub fn set_sink(sink: Option<Box<dyn FnMut(Probe)>>) {
+    SINK.with(|s| *s.borrow_mut() = sink);
+}
+
+pub(crate) fn emit(probe: Probe) {
+    SINK.with(|s| {
+        if let Ok(mut s) = s.try_borrow_mut() {
+            if let Some(f) = s.as_mut() {
+                f(probe);
+            }
+        }
+    });
+}
